@@ -269,6 +269,7 @@ def _build_maker(rng, P):
     chart["hand_states"] = sorted(i for i in range(1, chart["n"] + 1) if rng.random() < 0.5)
   chart["decoy"] = rng.random() < 0.3       # a second chart object with the same state names, another hierarchy and other callbacks
   chart["host"] = "factory" if chart["build"] == "factory" or (chart["build"] == "tocode" and rng.random() < 0.3) else "queued"
+  chart["early_code"] = chart["build"] == "tocode" and chart["host"] != "factory" and rng.random() < 0.3   # to_code asked for before the chart is complete, and again after
   chart["live_spy"] = chart["live_trace"] = False
   if chart["host"] == "factory":
     chart["cap"] = 500
@@ -311,7 +312,9 @@ def c17(tier):
 # ---------------------------------------------------------------- C18
 C18_CONFIGS = [("plain", True, 0, 0), ("plain", False, 0, 0), ("instr", True, 0, 0), ("instr", False, 0, 0),
                ("queued", False, 0, 0), ("queued", False, 1, 1),
-               ("queued", True, 0, 0), ("queued", True, 1, 0), ("queued", True, 0, 1), ("queued", True, 1, 1)]
+               ("queued", True, 0, 0), ("queued", True, 1, 0), ("queued", True, 0, 1), ("queued", True, 1, 1),
+               # partially decorated: some states carry the spy decorator, the others do not
+               ("queued", "partial", 0, 0), ("instr", "partial", 0, 0)]
 
 
 def _config_maker(rng, P, tid, seed):
@@ -322,6 +325,10 @@ def _config_maker(rng, P, tid, seed):
   start = base.randint(1, n)
   sigs = [base.choice(chart["sigs"]) for _ in range(base.randint(2, 8))]
   host, spied, ls, lt = C18_CONFIGS[tid % len(C18_CONFIGS)]
+  if spied == "partial":
+    spied = True
+    own = random.Random((seed << 20) ^ (tid * 7919 + 13))      # (not `base`: every configuration of a case must draw the same ops)
+    chart["spied_states"] = [own.random() < 0.5 for _ in range(n)]
   chart.update({"host": host, "spied": spied, "live_spy": bool(ls), "live_trace": bool(lt), "eff": [],
                 "clock": base.choice(["fine", "const", "coarse"])})
   if base.random() < 0.25:
